@@ -391,6 +391,14 @@ pub fn encodings_for(pd: &PlanDesc, tier: Tier) -> Vec<(String, Encoding)> {
             }
         }
     }
+    // value encodings the document allows and rbx_binary's writer never chooses
+    if plan.nodes.iter().any(|n| n.props.iter().any(|(_, v)| matches!(v, PVal::V(Variant::CFrame(_)) | PVal::V(Variant::OptionalCFrame(_))))) {
+        let mut e = base.clone();
+        e.cframe_long = true;
+        out.push(("cframe-long-form".into(), e.clone()));
+        e.comp = vec![Comp::Zstd];
+        out.push(("cframe-long-form".into(), e));
+    }
     if let PlanDesc::Service = pd {
         let mut e = base.clone();
         e.service_format = vec!["Workspace".into(), "Lighting".into()];
